@@ -147,15 +147,23 @@ func outcomeOf(s *chainsim.Step) string {
 	return "ok"
 }
 
+// warmCache: when set before explore, the global state cache is kept across transitions (and shared by
+// all forks a worker explores) instead of being reset per transition.
+var warmCache bool
+
 func explore(run *ev.Run, w *world.World, acts []chainsim.Action, roots [][]chainsim.Action, depth int, ignoreTime bool, budgetQ, budgetT int, mons ...chainsim.Monitor) {
 	mons = append(mons, func(s *chainsim.Step, v func(key, what string)) {
 		s.Tag("fn:" + s.Txn.FunctionName + ":" + outcomeOf(s))
 	})
 	e := &chainsim.Explorer{Run: run, W: w, Actions: acts, Roots: roots, Depth: depth, Monitors: mons,
-		Budget: time.Duration(run.Pick(budgetQ, budgetT)) * time.Second, IgnoreTimeInKey: ignoreTime}
+		Budget: time.Duration(run.Pick(budgetQ, budgetT)) * time.Second, IgnoreTimeInKey: ignoreTime, WarmCache: warmCache}
+	cache := "cold state cache per transition"
+	if warmCache {
+		cache = "warm state cache: the chain's global state cache is kept across transitions and shared by all forks a worker explores"
+	}
 	run.Assumptions = append(run.Assumptions, "account leaves = every leaf written through StateContext.SetClientState since genesis (keytap seam)",
 		"contract nodes are found by their plaintext key through the keytap dictionary and decoded with the repository's own msgp decoders",
-		"cold state cache per transition", "grocksdb replaced by the in-memory stand-in", "one transaction per block")
+		cache, "grocksdb replaced by the in-memory stand-in", "one transaction per block")
 	e.Explore()
 }
 
